@@ -256,19 +256,3 @@ fn c03_apply_delete_data() { apply_delete_or_expand(b'D'); }
 #[kani::stub(core::slice::memchr::memchr_aligned, naive_memchr)]
 #[kani::stub(core::slice::memchr::memrchr, naive_memrchr)]
 fn c03_apply_expand_data() { apply_delete_or_expand(b'E'); }
-
-#[kani::proof]
-#[kani::unwind(40)]
-fn zz_probe_pathbuf() {
-    let p: PathBuf = ["/g", "sqpack", "ex1", "f"].iter().collect();
-    assert!(p.as_os_str().len() == 15);
-}
-#[kani::proof]
-#[kani::unwind(40)]
-fn zz_probe_memfs() {
-    memfs::reset();
-    let f = OpenOptions::new().write(true).create(true).truncate(false).open("/g/a").unwrap();
-    let mut h = &f;
-    h.write_all(&[1, 2, 3]).unwrap();
-    assert!(memfs::file_len(memfs::find("/g/a").unwrap()) == 3);
-}
